@@ -97,7 +97,9 @@ ReadyT(i) ==
         /\ R.nl = r.nl
         /\ st' = [st EXCEPT ![i] = s2]
         /\ LET reads == {[ctx |-> R.reads[x].ctx, idx |-> R.reads[x].idx] : x \in 1..Len(R.reads)} IN
-           /\ rdy' = [rdy EXCEPT ![i] = [r EXCEPT !.msgs = msgs, !.reads = reads, !.confs = ConfsOwed(s2, r)]]
+           /\ rdy' = [rdy EXCEPT ![i] = [r EXCEPT !.msgs = msgs, !.reads = reads, !.confs = ConfsOwed(s2, r),
+                                               \* durability is observed, not demanded (see PersistHS)
+                                               !.sync = IF R.sync \/ r.snap.idx > 0 THEN "yes" ELSE "no"]]
            /\ bad' = bad \cup BadOfApp(s, r.hfrom, r.hto) \cup (IF StaleReads(s, reads) # {} THEN {"stale-read"} ELSE {})
         /\ gapp' = GappAfter(s, r.hfrom, r.hto)
         /\ PostOK(s2, P)
@@ -165,7 +167,12 @@ Done == l > Len(Trace) /\ UNCHANGED tvars
 TSpec == TInit /\ [][TNext \/ Done]_tvars
 
 \* high-water mark of the trace position (evaluated on every generated state)
-HW == TLCSet(1, IF l > TLCGet(1) THEN l ELSE TLCGet(1))
+\* Once one explanation of the whole trace has been found (every invariant was evaluated on each of
+\* its states when it was generated) the remaining alternatives are not explored any further: hidden
+\* bookkeeping (read acks, in-flight duplicates) can make them many.
+HW == LET h == TLCGet(1) IN
+      IF h > Len(Trace) THEN FALSE
+      ELSE TLCSet(1, IF l > h THEN l ELSE h)
 Accepted == /\ PrintT(<<"HWM", TLCGet(1), Len(Trace)>>)
             /\ TLCGet(1) = Len(Trace) + 1
 =============================================================================
